@@ -148,7 +148,7 @@ func runC03(r *chk.Run) {
 	}
 	cfgA := ref.Cfg{Checksum: ref.ChecksumCRC32, RowsV2: true, TableID6: true, GTID: true, ServerID: 5, ServerVer: "5.7.30-log"}
 	cfgB := ref.Cfg{Checksum: ref.ChecksumOff, RowsV2: false, TableID6: false, ServerID: 5, ServerVer: "5.5.62"}
-	alpha := []string{UTxXID, UDDL, URotate, UTxCommit, UAutoRows, UTxRollback, UTx2}
+	alpha := []string{UTxXID, UDDL, URotate, UTxCommit, UAutoRows, URotateStop, UTxRollback, UTx2}
 	long := make([]byte, 255)
 	for i := range long {
 		long[i] = 'a' + byte(i%26)
@@ -166,7 +166,7 @@ func runC03(r *chk.Run) {
 	Sequences(alpha, depth, func(seq []string) {
 		rot := 0
 		for _, u := range seq {
-			if u == URotate {
+			if u == URotate || u == URotateStop {
 				rot++
 			}
 		}
